@@ -209,8 +209,13 @@ def check(prop, tier, replay=None):
     print(f"[{prop}] tier={tier} seed={seed} shards={nsh} cases={m['evaluations']} distinct={len(m['distinct'])} wall={wall:.1f}s")
     for mon, d in mt.items():
         print(f"  monitor {mon}: " + " ".join(f"{k}={v}" for k, v in sorted(d.items())))
+    seen_kf = set()
     for mech, w, kf in known:
-        print(f"KNOWN-FINDING: property={prop} {kf.get('id', '')} {kf.get('what', mech)} (observed {m['viol_count'][mech]}x)")
+        seen_kf.add(kf.get("id"))
+        print(f"KNOWN-FINDING: property={prop} {kf.get('id', '')} {kf.get('what', mech)} (observed {m['viol_count'][mech]}x in this run)")
+    for kf in findings:
+        if kf.get("status") == "open" and kf.get("property") == prop and kf.get("id") not in seen_kf:
+            print(f"KNOWN-FINDING: property={prop} {kf.get('id', '')} {kf.get('what', '')} (listed; not met by this run's inputs)")
     for e in m["errors"][:2]:
         print("MONITOR-ERROR:\n" + e["traceback"])
     if os.environ.get("VERIF_KEEP_WORK") != "1":
